@@ -81,6 +81,7 @@ type c19SP struct {
 }
 
 type c19World struct {
+	logins int
 	c       *core.Ctx
 	store   *sched.MapStore
 	wrap    *sched.Wrapper
@@ -112,11 +113,14 @@ func c19NewWorld(c *core.Ctx) *c19World {
 	fx.SetNow(w.now)
 	saml.RandReader = fx.NewRecReader(4242)
 	// seed users directly in the store (cheap hashes)
-	for _, u := range []struct{ n, pw string }{{"alice", "pw-alice"}, {"bob", "pw-bob"}} {
+	for _, u := range []struct{ n, pw string }{{"alice", "pw-alice"}, {"bob", "pw-bob"}, {"carol", "pw-carol"}} {
 		if c19SeedHashes[u.n] == nil {
 			c19SeedHashes[u.n] = c19Hash(u.pw)
 		}
 		p := c19Profile{Name: u.n, Email: u.n + "@example.com", CommonName: strings.ToUpper(u.n[:1]) + u.n[1:] + " Doe", Surname: "Doe", GivenName: u.n, Groups: []string{"staff", "grp-" + u.n}}
+		if u.n != "alice" { // two users without an e-mail address: nothing but their names tells them apart
+			p.Email = ""
+		}
 		usr := samlidp.User{Name: p.Name, HashedPassword: c19SeedHashes[u.n], Email: p.Email, CommonName: p.CommonName, Surname: p.Surname, GivenName: p.GivenName, Groups: p.Groups}
 		_ = w.store.Put("/users/"+u.n, &usr)
 		w.model.users[u.n] = &c19MUser{hasHash: true, password: u.pw, profile: p}
@@ -472,7 +476,33 @@ func (w *c19World) step(act c19Action, faultAt int, faultErr error) {
 	case "putUser":
 		u := act.a
 		p := c19Profile{Name: u, Email: u + fmt.Sprintf("+%d@example.com", act.n), CommonName: "CN " + u + fmt.Sprint(act.n), Surname: "S" + fmt.Sprint(act.n), GivenName: "G" + u, Groups: []string{"g" + fmt.Sprint(act.n)}}
-		body := map[string]any{"name": "ignored", "email": p.Email, "common_name": p.CommonName, "surname": p.Surname, "given_name": p.GivenName, "groups": p.Groups}
+		// sparse bodies: a PUT replaces the user, so members that are left out are gone afterwards (only the password hash is
+		// documented to survive an omitted password)
+		if act.n%3 == 1 {
+			p.Email = ""
+		}
+		if act.n%4 == 2 {
+			p.Groups = nil
+		}
+		if act.n%5 == 3 {
+			p.Surname, p.GivenName = "", ""
+		}
+		body := map[string]any{"name": "ignored"}
+		if p.Email != "" {
+			body["email"] = p.Email
+		}
+		if p.CommonName != "" {
+			body["common_name"] = p.CommonName
+		}
+		if p.Surname != "" {
+			body["surname"] = p.Surname
+		}
+		if p.GivenName != "" {
+			body["given_name"] = p.GivenName
+		}
+		if p.Groups != nil {
+			body["groups"] = p.Groups
+		}
 		pw, setPw := "", false
 		switch act.b {
 		case "with-password":
@@ -491,6 +521,16 @@ func (w *c19World) step(act c19Action, faultAt int, faultErr error) {
 				m.users[u] = mu
 			}
 			mu.profile = p
+			var stored samlidp.User
+			if err := json.Unmarshal([]byte(w.store.Snapshot()["/users/"+u]), &stored); err == nil {
+				got := c19Profile{Name: stored.Name, Email: stored.Email, CommonName: stored.CommonName, Surname: stored.Surname, GivenName: stored.GivenName, Groups: stored.Groups}
+				if len(got.Groups) == 0 {
+					got.Groups = nil
+				}
+				if !reflect.DeepEqual(got, p) {
+					w.fail("S5/stored-user-differs-from-put", fmt.Sprintf("after %s the stored user is %+v, the request body said %+v", desc, got, p), nil)
+				}
+			}
 			if setPw {
 				if mu.hasHash && mu.password != pw {
 					mu.previous = mu.password
@@ -555,6 +595,14 @@ func (w *c19World) step(act c19Action, faultAt int, faultErr error) {
 		req := httptest.NewRequest("POST", c19Root+"/login", strings.NewReader(form.Encode()))
 		req.Header.Set("Content-Type", "application/x-www-form-urlencoded")
 		req.Header.Set("X-No-Cookie", "1")
+		// a browser that logs in again may still hold the cookie of an earlier session (its own or someone else's, live or
+		// expired); credentials decide, the cookie must not matter
+		w.logins++ // chosen by position in the history, not by the PRNG: a replay with a restart inserted must make the same choice
+		if ck := w.cookieFor([]string{"", "live", "older", "older", "forged"}[w.logins%5]); ck != "" {
+			req.Header.Set("Cookie", "session="+ck)
+			req.Header.Del("X-No-Cookie")
+			w.c.Count("logins_with_a_session_cookie_attached")
+		}
 		rep := w.do(desc, req, faultAt, faultErr)
 		mu := m.users[user]
 		want := mu != nil && mu.hasHash && mu.password == pw && user != ""
